@@ -153,6 +153,7 @@ pub fn run(outdir: &Path, tier: &str, seed: u64, shards: usize, replay: Option<S
                         prelude,
                         exposed: vec![Exposed { key: "resp".into(), path: format!("{}::ResponseData", m.name), de: true, ser: true }],
                         custom: vec![("vars".into(), crate::c04::variables_expr(&m.name, &sname))],
+                        outer: String::new(),
                     }))
                 }
                 _ => None,
